@@ -40,7 +40,7 @@ def to_steps(seq, waits=None):
         elif s in ("commit", "abort"):
             steps.append([s])
         elif s in ("ctx_ok", "ctx_exc"):
-            steps.append([s, [["send", 0, 0, False]]])
+            steps.append([s, [["send", 0, 0, False]]] + (["base"] if s == "ctx_exc" and i % 2 else []))
         elif s == "pause":
             steps.append(["sleep", 0.2])
     return steps
